@@ -59,6 +59,7 @@ func (e *Engine) verifyLemma(name string, c *Contract) *FuncReport {
 	e.baseNames = map[string]Value{}
 	e.selfNames = map[string]Value{}
 	e.callRes = map[string][]Value{}
+	e.callArgs = map[string][][]Value{}
 	e.dynType = map[string]types.Type{}
 	e.nfresh = 0
 	rep := &FuncReport{Key: fi.Key, Tags: c.tags()}
